@@ -45,6 +45,12 @@ def vc_task(task):
     return res
 
 
+def shared_c12_task(task):
+    import props.c12 as p12
+    from pyvc.runner import relabel
+    return relabel(p12.vc_task(task), 'C02')
+
+
 def status_writes_task(task):
     """D-infinity, structural: `statuses[...]` is only ever set to False (by _muck_hole_cards) after _setup appended True
     -- a player who folded, mucked or was killed never comes back, whatever the history"""
@@ -91,6 +97,14 @@ def main(argv=None):
                           'shape': sh.as_dict(), 'timeout_ms': 120000 if chk.tier == 'thorough' else 40000, 'weight': sh.n * sh.B * sh.T})
     if not only:
         tasks.append({'module': 'props.c02', 'fn': 'status_writes_task', 'name': 'status-writes'})
+        # "a player who folded, mucked or was killed wins nothing" needs: a hand that can win is never killed or mucked by the engine
+        import props.c12 as p12
+        for sh in p12.shapes('quick'):
+            for pl in range(sh.n):
+                tasks.append({'module': 'props.c02', 'fn': 'shared_c12_task', 'name': f'can_win_now/n{sh.n}p{pl}', 'contract': 'can_win_now',
+                              'shape': sh.as_dict(), 'timeout_ms': 40000, 'player': pl})
+            tasks.append({'module': 'props.c02', 'fn': 'shared_c12_task', 'name': f'begin_hand_killing/n{sh.n}', 'contract': 'begin_hand_killing',
+                          'shape': sh.as_dict(), 'timeout_ms': 40000, 'player': None})
     chk.run_tasks(tasks)
     chk.assumptions += [
         'hands are abstract optional strengths: State.get_up_hand -> hand_type.from_game is replaced by the C04/C05 contracts (total '
